@@ -9,22 +9,22 @@ namespace Ec.Coe
 open Ec Ec.Gen.Coe
 
 /-- `triage` written on the reply bytes alone. -/
-def triageB {ρ : Type} (assertE : Bool) (unpackR : List Nat → Res ρ) (validate : Nat → Nat → Bool) (b : List Nat) :
+def triageB {ρ : Type} (unpackR : List Nat → Res ρ) (validate : Nat → Nat → Bool) (b : List Nat) :
     Res (ρ × List Nat) :=
-  (unpackHeadersRaw b).bind fun h =>
-    if assertE && h.service == svcEmergency then
-      .panic "assertion `left != right` failed: Emergency"
-    else if h.service == svcEmergency then
-      (unpackEmergency (b.drop LEN_HeadersRaw)).bind fun d => .err (.emergency d.1 d.2)
-    else if h.command == cmdAbort then
-      (unpackU32 (b.drop LEN_HeadersRaw)).bind fun code => .err (.aborted code h.address h.subIndex)
-    else if h.header.mailboxType != mbxCoe || !validate h.address h.subIndex then
-      .err (.responseInvalid h.address h.subIndex)
+  (unpackCoeHeaders b).bind fun ch =>
+    if ch.2 == svcEmergency then
+      (unpackEmergency (b.drop LEN_CoeHeadersRaw)).bind fun d => .err (.emergency d.1 d.2)
     else
-      (unpackR b).bind fun r => .ok (r, b.drop LEN_HeadersRaw)
+      (unpackHeadersRaw b).bind fun h =>
+        if h.command == cmdAbort then
+          (unpackU32 (b.drop LEN_HeadersRaw)).bind fun code => .err (.aborted code h.address h.subIndex)
+        else if h.header.mailboxType != mbxCoe || !validate h.address h.subIndex then
+          .err (.responseInvalid h.address h.subIndex)
+        else
+          (unpackR b).bind fun r => .ok (r, b.drop LEN_HeadersRaw)
 
 theorem triage_eq_bytes {ρ : Type} (cfg : Cfg) (u : List Nat → Res ρ) (v : Nat → Nat → Bool) (p : Pdu)
-    (hp : p.start + p.len ≤ p.frame.length) : triage cfg u v p = triageB cfg.assertEmergency u v p.bytes := by
+    (hp : p.start + p.len ≤ p.frame.length) : triage cfg u v p = triageB u v p.bytes := by
   simp only [triage, triageB, Pdu.trimFront_bytes _ _ hp]
 
 /-- One SDO-info iteration written on the reply bytes alone. -/
@@ -73,7 +73,6 @@ theorem triage_around {ρ : Type} (cfg : Cfg) (pre post : List Nat) (u : List Na
     (img : List Nat) :
     triage (cfg.around pre post) u v (mkPdu (cfg.around pre post) img) = triage cfg u v (mkPdu cfg img) := by
   rw [triage_eq_bytes _ _ _ _ (mkPdu_ok _ _), triage_eq_bytes _ _ _ _ (mkPdu_ok _ _), mkPdu_bytes, mkPdu_bytes]
-  rfl
 
 theorem infoStep_around (cfg : Cfg) (pre post : List Nat) (img : List Nat) (consumed : Bool) (buf : List Nat) :
     infoStep (cfg.around pre post) (mkPdu (cfg.around pre post) img) consumed buf =
